@@ -165,6 +165,23 @@ def switch_table(fn, R, rule, who):
     return tables
 
 
+def returns_none(fn, sw_bb, v):
+    """Does the arm for value v of the switch at sw_bb assign `_0 = None` before anything else of substance?"""
+    t = fn.blocks[sw_bb]["t"]
+    tgt = dict((a, b) for a, b in t["arms"]).get(v, t["otherwise"])
+    for _ in range(4):
+        b = fn.blocks[tgt]
+        for s in b["s"]:
+            rv = s["rv"]
+            if s["pl"]["l"] == 0 and rv["k"] == "agg" and rv.get("variant") == "None":
+                return True
+        if b["t"]["k"] == "goto":
+            tgt = b["t"]["target"]
+        else:
+            break
+    return False
+
+
 def arm_impl(fn, bb, depth=0):
     """What an arm does: ('fn', path) | ('guard', mask, path) | ('unknown',) | ('other',)."""
     b = fn.blocks[bb]
@@ -238,6 +255,83 @@ def eval_const_operand(fn, defs, op):
             return None
         return {"BitOr": a | b, "BitAnd": a & b, "Add": a + b, "BitXor": a ^ b}.get(rv["op"])
     return None
+
+
+def dialect_for_version(f, defs, vloc, v):
+    """(ctor path, flags) of the `Dialect::new` call reached when the version local has value v; "ambiguous" when paths for
+    that value construct different dialects; None when none is constructed."""
+    vcopies = {vloc}
+    changed = True
+    while changed:
+        changed = False
+        for _, _, s in f.stmts():
+            if not s["pl"]["p"] and s["rv"]["k"] == "use" and op_local(s["rv"]["op"]) in vcopies and not op_place(s["rv"]["op"])["p"] \
+                    and s["pl"]["l"] not in vcopies:
+                vcopies.add(s["pl"]["l"])
+                changed = True
+    found = set()
+    seen = set()
+    todo = [(0, ())]
+    while todo:
+        bb, envt = todo.pop()
+        if (bb, envt) in seen or len(seen) > 4000:
+            continue
+        seen.add((bb, envt))
+        env = dict(envt)
+        blk = f.blocks[bb]
+        if blk.get("cleanup"):
+            continue
+
+        def val(op):
+            c = op_int(op)
+            if c is not None:
+                return c
+            l = op_local(op)
+            if l is None or op_place(op)["p"]:
+                return None
+            if l in vcopies:
+                return v
+            return env.get(l)
+        for s in blk["s"]:
+            if s["pl"]["p"]:
+                continue
+            rv = s["rv"]
+            x = None
+            if rv["k"] == "use":
+                x = val(rv["op"])
+            elif rv["k"] == "bin":
+                a, b = val(rv["a"]), val(rv["b"])
+                if a is not None and b is not None:
+                    x = {"Eq": int(a == b), "Ne": int(a != b), "Lt": int(a < b), "Le": int(a <= b), "Gt": int(a > b),
+                         "Ge": int(a >= b), "BitOr": a | b, "BitAnd": a & b, "Add": a + b, "BitXor": a ^ b}.get(rv["op"])
+            elif rv["k"] == "un" and rv["op"] == "Not":
+                a = val(rv["a"])
+                x = None if a is None else int(not a)
+            if x is None:
+                env.pop(s["pl"]["l"], None)
+            else:
+                env[s["pl"]["l"]] = x
+        t = blk["t"]
+        if t["k"] == "call" and (callee_of(t) or "").endswith("Dialect::new"):
+            fl_ = val(t["args"][0]) if t["args"] else None
+            if fl_ is None and t["args"]:
+                fl_ = eval_const_operand(f, defs, t["args"][0])
+            found.add((callee_of(t), fl_))
+        if t["k"] == "switch":
+            d = val(t["discr"])
+            if d is not None:
+                tgt = dict((a, b2) for a, b2 in t["arms"]).get(d, t["otherwise"])
+                todo.append((tgt, tuple(sorted(env.items()))))
+                continue
+        if t["k"] == "call":
+            env.pop(t["dest"]["l"], None)
+        for nx in f.succ(bb):
+            todo.append((nx, tuple(sorted(env.items()))))
+    if not found:
+        return None
+    if len(found) > 1:
+        return "ambiguous"
+    return next(iter(found))
 
 
 def opcode_of_names(kw):
@@ -373,12 +467,33 @@ def run(tier="quick", replay=None):
             R.viol("R20." + who, "R20.%s|anchor-lost|op" % who, path, "anchor lost: %s::op not found" % who)
             return {}, {}, {}
         small, wide = {}, {}
-        for bb, arms in switch_table(f, R, "R20." + who, who):
-            if all(v < 256 for v in arms):
-                if len(arms) > len(small):
-                    small = arms
-            else:
-                wide = arms
+        # the opcode match may live in a helper the method calls or passes on as a function item (`.and_then(lookup)`)
+        cands = [f]
+        for _, t in f.calls():
+            g = progx.fn(callee_of(t) or "")
+            if g is not None and g not in cands and g.kind in ("Fn", "AssocFn"):
+                cands.append(g)
+        for _, _, st in f.stmts():
+            for o in rv_operands(st["rv"]):
+                c = op_const(o)
+                if c and "fn" in c and progx.fn(c["fn"]) is not None and progx.fn(c["fn"]) not in cands:
+                    cands.append(progx.fn(c["fn"]))
+        for _, t in f.calls():
+            for a_ in t["args"]:
+                c = op_const(a_)
+                if c and "fn" in c and progx.fn(c["fn"]) is not None and progx.fn(c["fn"]) not in cands:
+                    cands.append(progx.fn(c["fn"]))
+        calls_unknown = any((callee_of(t) or "").endswith("unknown_operator") for _, t in f.calls())
+        for g in cands:
+            for bb, arms in switch_table(g, R, "R20." + who, who):
+                if g is not f and calls_unknown:
+                    # in a lookup helper "no entry" (None) stands for the caller's unknown_operator fall-back
+                    arms = {v: (("unknown",) if a == ("other",) and returns_none(g, bb, v) else a) for v, a in arms.items()}
+                if all(isinstance(v, int) and v < 256 for v in arms):
+                    if len(arms) > len(small):
+                        small = arms
+                elif g is f or not wide:
+                    wide = arms
         kws = {}
         for name in ("quote_kw", "apply_kw", "softfork_kw"):
             g = progx.fn(prefix + name)
@@ -443,30 +558,26 @@ def run(tier="quick", replay=None):
         R.viol("R20.RUN", "R20.RUN|anchor-lost|runner", RUNNER, "anchor lost: DefaultProgramRunner::run_program")
     else:
         defs = Defs(f)
-        sws = [(bb, b["t"]) for bb, b in enumerate(f.blocks) if b["t"]["k"] == "switch"
-               and not b.get("cleanup") and f.local_name(op_local(b["t"]["discr"]) or 0) is not None
-               and "usize" == b["t"]["discr_ty"]]
-        if len(sws) != 1:
+        # the operator-set version: the usize produced by `.unwrap_or(DEFAULT)`
+        vloc, dflt = None, None
+        for bbx, tx in f.calls():
+            if (callee_of(tx) or "").endswith("unwrap_or") and f.local_ty(tx["dest"]["l"]) == "usize":
+                vloc, dflt = tx["dest"]["l"], op_int(tx["args"][1])
+        if vloc is None:
             R.viol("R20.RUN", "R20.RUN|anchor-lost|switch", RUNNER,
-                   "anchor lost: run_program no longer has one match on the operator-set version")
+                   "anchor lost: run_program no longer derives the operator-set version with unwrap_or(default)")
         else:
-            bb, t = sws[0]
-            arms = [(v, tgt) for v, tgt in t["arms"]] + [("otherwise", t["otherwise"])]
-            for v, tgt in arms:
-                others = [x for _, x in arms if x != tgt]
-                ctor = None
-                for b2 in sorted(f.reachable(tgt, avoid=others)):
-                    t2 = f.blocks[b2]["t"]
-                    if t2["k"] == "call" and (callee_of(t2) or "").endswith("Dialect::new"):
-                        ctor = (callee_of(t2), eval_const_operand(f, defs, t2["args"][0]))
-                        break
-                run_sel[v] = ctor
-            # default of the version when no option is given
-            dflt = None
-            vloc = op_local(t["discr"])
-            for bbx, tx in f.calls():
-                if tx["dest"]["l"] == vloc and (callee_of(tx) or "").endswith("unwrap_or"):
-                    dflt = op_int(tx["args"][1])
+            # finite case split: for each version value follow the CFG, deciding every branch that depends only on the
+            # version (match on it, or a comparison of it with a constant) and collecting the dialect constructed
+            for key, v in [(i, i) for i in range(0, maxver + 1)] + [("otherwise", maxver + 5)]:
+                res = dialect_for_version(f, defs, vloc, v)
+                if res == "ambiguous":
+                    R.viol("R20.RUN", "R20.RUN|anchor-lost|version-%s" % key, RUNNER,
+                           "anchor lost: the dialect run_program builds for version %s could not be determined (more than one "
+                           "Dialect::new on the paths for that version)" % key)
+                    run_sel[key] = None
+                else:
+                    run_sel[key] = res
             R.check(dflt == maxver, "R20.RUN.default", "R20.RUN.default|unwrap_or", RUNNER,
                     "auto: absent option => version %s = latest" % dflt,
                     "run_program defaults to operator-set version %r, the latest is %r" % (dflt, maxver))
@@ -807,7 +918,12 @@ def run(tier="quick", replay=None):
 def check_kw_init(prog, init, want_le, direction):
     if init is None:
         return False, "initialiser not found"
-    if not any("classic::clvm::KW_PAIRS" in p for p in init.d.get("promoted", [])):
+    # a table builder split out into a same-module helper is inlined (the version bound then arrives as the helper's argument)
+    import inline
+    init0 = init
+    init = inline.inlined(prog, init0, pred=lambda g: g.parent == init0.parent or (g.parent or "").startswith("classic::clvm"), depth=2)
+    all_prom = [p for ps in init.d.get("promoted_of", {}).values() for p in ps]
+    if not any("classic::clvm::KW_PAIRS" in p for p in all_prom):
         # may reference the const directly
         found = False
         for _, _, s in init.stmts():
@@ -838,6 +954,33 @@ def check_kw_init(prog, init, want_le, direction):
         if s["pl"]["l"] == 0 and s["rv"]["k"] == "bin":
             rv = s["rv"]
             k = op_int(rv["b"])
+            if k is None:
+                # bound captured by the closure: resolve the captured operand in the (inlined) initialiser to a constant
+                lb = op_local(rv["b"])
+                up = None
+                for _hop in range(4):
+                    nxt = None
+                    for _, _, s3 in filt.stmts():
+                        if lb is not None and s3["pl"]["l"] == lb and not s3["pl"]["p"] and s3["rv"]["k"] in ("use", "ref"):
+                            p3 = op_place(s3["rv"]["op"]) if s3["rv"]["k"] == "use" else s3["rv"]["pl"]
+                            if p3 and p3["l"] == 1:
+                                fs = [e["f"] for e in p3["p"] if isinstance(e, dict) and "f" in e and str(e["f"]).isdigit()]
+                                if fs:
+                                    up = int(fs[0])
+                            elif p3:
+                                nxt = p3["l"]
+                    if up is not None or nxt is None:
+                        break
+                    lb = nxt
+                if up is not None:
+                    ifl = Flow(init)
+                    for _, _, s4 in init.stmts():
+                        if s4["rv"]["k"] == "agg" and s4["rv"].get("agg") == "closure" and s4["rv"].get("closure") == filt.path \
+                                and up < len(s4["rv"]["ops"]):
+                            cl = op_local(s4["rv"]["ops"][up])
+                            ints = set(const_ints(ifl.consts_into([cl]))) if cl is not None else set()
+                            if len(ints) == 1:
+                                k = next(iter(ints))
             # left side must be the .version field
             la = op_local(rv["a"])
             isver = False
